@@ -26,6 +26,79 @@ MT_UNSAFE_LIBC = {"strtok", "rand", "srand", "setlocale", "localeconv", "asctime
 SYNC = re.compile(r"^(pthread_|__atomic_|__sync_|atomic_|mtx_|cnd_|sem_)")
 
 
+def gen_ops(B, seed):
+    """Generated op alphabet: for every value-returning entry point of the public headers up to three tuples that succeed and one that fails (taken from the C03
+    argument product), written as C statements into sched_ops_gen.h.  Crystal arguments are thread-private copies obtained inside the op.  Returns
+    (include dir, names, groups) where groups = {function: [op numbers]}."""
+    import hashlib, math
+    import numpy as np
+    import xrl, c03
+    X = xrl.Xrl("plain", "A", build=B, nproc=4)
+    r, lines = X.op("CrystalList", "i", [1]); cnames = lines[0].split("\t")[1:]
+    sigs = dict(xrl.generic_fns())
+    body, names, groups = [], [], {}
+
+    def lit(c, v):
+        if c == "i":
+            return str(int(v))
+        if c == "d":
+            v = float(v)
+            return None if not math.isfinite(v) else v.hex()
+        if c == "s":
+            if v is None:
+                return "NULL"
+            b = v if isinstance(v, bytes) else v.encode("latin-1")
+            return '"' + "".join("\\%03o" % ch for ch in b) + '"'
+        return None
+    for p in c03.build_plans(B, "A", 0, seed):
+        if p.kind != "fn" or p.name not in sigs or p.n == 0:
+            continue
+        sig = sigs[p.name]; ret, args = sig[0], sig[2:-1]
+        q = p
+        if q.n > 20000:
+            st = q.n // 20000 + 1
+            q = c03.Plan(p.name, p.kind, p.sig, [c[::st] for c in p.cols], p.op)
+        rr = c03.run_plan(X, q, 0)
+        err = (rr["flags"] & xrl.F_ERR) != 0
+        ok = np.nonzero(~err)[0]; bad = np.nonzero(err)[0]
+        pick = ([int(ok[0]), int(ok[-1]), int(ok[len(ok) // 2])] if len(ok) else []) + ([int(bad[len(bad) // 2])] if len(bad) else [])
+        seen = set()
+        for j in pick:
+            a = c03.argtuple(q, j)
+            if tuple(map(repr, a)) in seen:
+                continue
+            seen.add(tuple(map(repr, a)))
+            pre, post, call_args, good = "", "", [], True
+            for k_, (c, v) in enumerate(zip(args, a)):
+                if c == "k":
+                    if not (0 <= int(v) < len(cnames)):
+                        good = False; break
+                    pre += 'Crystal_Struct *c%d = Crystal_GetCrystal("%s", NULL, NULL); ' % (k_, cnames[int(v)]); post += "Crystal_Free(c%d); " % k_
+                    call_args.append("c%d" % k_)
+                else:
+                    l_ = lit(c, v)
+                    if l_ is None:
+                        good = False; break
+                    call_args.append(l_)
+            if not good:
+                continue
+            call = "%s(%s)" % (p.name, ", ".join(call_args + ["&e"]))
+            if ret == "c":
+                stmt = "{ %sxrlComplex z = %s; h = Hd(Hd(h, z.re), z.im); %sreturn He(h, &e); }" % (pre, call, post)
+            else:
+                stmt = "{ %sh = Hd(h, (double)%s); %sreturn He(h, &e); }" % (pre, call, post)
+            groups.setdefault(p.name, []).append(NOPS + len(body))
+            names.append("%s%r" % (p.name, tuple(a)))
+            body.append("    case %d: %s" % (len(body), stmt))
+    X.close()
+    src = "/* generated by checks/c17.py */\n#define NGEN %d\nstatic uint64_t gen_run(int k) {\n    xrl_error *e = NULL; uint64_t h = H0;\n    switch (k) {\n%s\n    }\n    return 0;\n}\n" % (len(body), "\n".join(body))
+    d = os.path.join(B.dir, "c17gen_" + hashlib.sha256(src.encode()).hexdigest()[:12])
+    os.makedirs(d, exist_ok=True)
+    with open(os.path.join(d, "sched_ops_gen.h"), "w") as f:
+        f.write(src)
+    return d, names, groups
+
+
 class Sched:
     def __init__(self, exe, env=None):
         self.p = subprocess.Popen([exe], stdin=subprocess.PIPE, stdout=subprocess.PIPE, text=True, bufsize=1, env=env)
@@ -146,7 +219,11 @@ def run(ctx, B):
     for u in unsafe:
         if u not in ("setlocale",):
             ctx.violation("libc|mt-unsafe|%s" % u, "library code calls %s(), which keeps process-global state and is not thread safe" % u)
-    exe = B.exe("sched", [os.path.join(hdir, "sched.c")], "acc", "A", hflags=["-O1", "-g", "-fno-omit-frame-pointer"], extra=["-no-pie", "-rdynamic"])
+    gdir, gnames, ggroups = gen_ops(B, ctx.seed)
+    for k_, nm_ in enumerate(gnames):
+        OPNAMES[NOPS + k_] = nm_
+    ctx.notes["generated_ops"] = dict(ops=len(gnames), functions=len(ggroups))
+    exe = B.exe("sched", [os.path.join(hdir, "sched.c")], "acc", "A", hflags=["-O1", "-g", "-fno-omit-frame-pointer"], extra=["-no-pie", "-rdynamic", "-I" + gdir, "-DSCHED_GEN=1"])
     loc = B.locale_dir()
     total_sched = total_trans = total_harness = 0
     all_outcomes = 0
@@ -177,6 +254,18 @@ def run(ctx, B):
             harnesses.append(([[a], [b], [c]], "-", 2))
         if lc:
             harnesses = [h_ for h_ in harnesses if any(o in (7, 8, 9, 10, 17, 25) for p in h_[0] for o in p)][::2]
+        else:
+            # every value-returning entry point against itself: two threads, two different tuples (succeeding / failing) of the SAME function - a static
+            # scratch variable, memo or lazily built table inside any function is written by both threads and shows as a contested location
+            for fn_, ops_ in sorted(ggroups.items()):
+                for a, b in itertools.combinations(ops_, 2):
+                    harnesses.append(([[a], [b]], "-", 2))
+                harnesses.append(([[ops_[0]], [ops_[0]]], "-", 2))
+                for k_ in ops_:
+                    r = parse(hs[0].run("S", "-", [[k_]])[0])
+                    if r is None:
+                        raise common.Infra("serial reference of generated op %s failed" % OPNAMES[k_])
+                    serial[k_] = r["results"]["0.0"]
         lock = threading.Lock()
         q = queue.Queue()
         for h_ in harnesses:
@@ -195,7 +284,7 @@ def run(ctx, B):
                 def bad(sym, text, prefix, _name=name, _progs=progs, _pts=pts, cont=None):
                     with lock:
                         ctx.violation("sched|%s|%s" % (sym, "+".join(sorted(set(OPNAMES[o].split("(")[0] for p in _progs for o in p)))),
-                                      "%s%s: %s" % (_name, " [locale %s]" % lc if lc else "", text), dict(progs=_progs, points=_pts, prefix=list(prefix), locale=lc, contested=sorted(contested)))
+                                      "%s%s: %s" % (_name, " [locale %s]" % lc if lc else "", text), dict(progs=_progs, points=_pts, prefix=list(prefix), locale=lc, contested=sorted(contested), seed=ctx.seed, opnames={str(o): OPNAMES[o] for p__ in _progs for o in p__ if o >= NOPS}))
                 # 1. conflict pass
                 line, _ = h.run("S", "-", progs)
                 r = parse(line)
@@ -299,7 +388,11 @@ def replay(path):
         p = subprocess.run([texe, "16", "1500", "0"], stdout=subprocess.PIPE, stderr=subprocess.PIPE, text=True, env=env)
         n = p.stderr.count("WARNING: ThreadSanitizer"); print(p.stdout[-300:]); print("ThreadSanitizer reports: %d" % n)
         return 1 if n or "mismatches=0" not in p.stdout else 0
-    exe = B.exe("sched", [os.path.join(hdir, "sched.c")], "acc", "A", hflags=["-O1", "-g", "-fno-omit-frame-pointer"], extra=["-no-pie", "-rdynamic"])
+    gdir, gnames, ggroups = gen_ops(B, int(r.get("seed", 1)))
+    exe = B.exe("sched", [os.path.join(hdir, "sched.c")], "acc", "A", hflags=["-O1", "-g", "-fno-omit-frame-pointer"], extra=["-no-pie", "-rdynamic", "-I" + gdir, "-DSCHED_GEN=1"])
+    if r.get("opnames"):      # generated ops are addressed by name: their numbers depend on the tree and the seed
+        num = {n_: NOPS + k_ for k_, n_ in enumerate(gnames)}
+        r["progs"] = [[(num.get(r["opnames"].get(str(o), ""), o) if o >= NOPS else o) for o in p_] for p_ in r["progs"]]
     env = dict(os.environ)
     if r.get("locale"):
         env.update(LOCPATH=B.locale_dir(), XDRV_LOCALE=r["locale"])
